@@ -1367,13 +1367,16 @@ impl Writer {
   fn remove_all_acked_changes_but_keep_depth(&mut self, depth: usize) {
     let first_keeper = if !self.like_stateless {
       // Regular stateful writer behavior
-      // All readers have acked up to this point (SequenceNumber)
-      let acked_by_all_readers = self
-        .readers
-        .values()
-        .map(RtpsReaderProxy::acked_up_to_before)
-        .min()
-        .unwrap_or_else(SequenceNumber::zero);
+      // All reliable readers have acked up to this point (SequenceNumber).
+      // Best-effort readers never acknowledge anything, so they must not hold back
+      // the cleaning. If there is no reliable reader, or a reader claims to have
+      // acked more than we have written, "everything written so far" is the limit.
+      let mut acked_by_all_readers = self.history_buffer.last_change_sequence_number().plus_1();
+      for reader_proxy in self.readers.values() {
+        if reader_proxy.qos().is_reliable() {
+          acked_by_all_readers = min(acked_by_all_readers, reader_proxy.acked_up_to_before());
+        }
+      }
       // If all readers have acked all up to before 5, and depth is 5, we need
       // to keep samples 0..4, i.e. from acked_up_to_before - depth .
       max(
